@@ -206,7 +206,7 @@ Definition rgb_slice_ok (v : aval) : bool :=
 
 Definition color_skel (x : xml) : outcome unit :=
   match attr A_RGB x with
-  | Some v => if rgb_slice_ok v then Ok tt else Panic
+  | Some v => Ok tt   (* `raw[2..]` only when `raw.is_char_boundary(2)` (b7d4aff); [rgb_slice_ok v] no longer matters *)
   | None =>
     match attr A_INDEXED x with
     | Some v => ignore (parse_i32 v)
@@ -320,16 +320,16 @@ Definition dxf_skel (dxf : xml) : outcome unit :=
 Definition load_styles_skel (f : fstate) : outcome unit :=
   match f with
   | Tree ss =>
-    obind (first_or_panic (kids_with T_FONTS ss)) (fun fonts =>
+    obind (first_or_err (kids_with T_FONTS ss)) (fun fonts =>
     obind (oiter font_skel (children fonts)) (fun _ =>
-    obind (first_or_panic (kids_with T_FILLS ss)) (fun fills =>
+    obind (first_or_err (kids_with T_FILLS ss)) (fun fills =>
     obind (oiter fill_skel (children fills)) (fun _ =>
-    obind (first_or_panic (kids_with T_BORDERS ss)) (fun borders =>
+    obind (first_or_err (kids_with T_BORDERS ss)) (fun borders =>
     obind (oiter side_skel (children borders)) (fun _ =>
-    obind (first_or_panic (kids_with T_CELLSTYLEXFS ss)) (fun _ =>
-    obind (first_or_panic (kids_with T_CELLSTYLES ss)) (fun cell_styles =>
+    obind (first_or_err (kids_with T_CELLSTYLEXFS ss)) (fun _ =>
+    obind (first_or_err (kids_with T_CELLSTYLES ss)) (fun cell_styles =>
     obind (oiter (fun cs => ignore (req A_NAME cs)) (children cell_styles)) (fun _ =>
-    obind (first_or_panic (kids_with T_CELLXFS ss)) (fun cell_xfs =>
+    obind (first_or_err (kids_with T_CELLXFS ss)) (fun cell_xfs =>
     obind (oiter (fun xf => match attr A_XFID xf with Some v => ignore (parse_i32 v) | None => Ok tt end)
                  (children cell_xfs)) (fun _ =>
     match kids_with T_DXFS ss with
@@ -340,8 +340,9 @@ Definition load_styles_skel (f : fstate) : outcome unit :=
   end.
 
 (* ---- worksheets.rs load_sheet_rels ---------------------------------------------------------------- *)
-(* `target.replace_range(..2, v[0])` panics when the string has fewer than two bytes or byte 2 is
-   not a character boundary *)
+(* `target.is_char_boundary(2)`: false when the string has fewer than two bytes or byte 2 is not a
+   character boundary; the reader now returns Err in that case (256a2e8) instead of panicking in
+   `target.replace_range(..2, v[0])` *)
 Definition replace_range_ok (v : aval) : bool :=
   match v with
   | VTarget cls _ => negb ((cls =? 5) || (cls =? 6) || (cls =? 7))
@@ -361,8 +362,8 @@ Definition abs_part (v : aval) : option (option Z) :=
 
 Definition comment_skel (c : xml) : outcome unit :=
   (* `.map(|n| n.text().unwrap())` over the <t> descendants, then `ref` *)
-  obind (oiter (fun t => if has_text t then Ok tt else Panic) (desc_with T_T c)) (fun _ =>
-  ignore (req A_REF c)).
+  (* `.map(|n| n.text().unwrap_or(""))` (4ecd40d; was `unwrap()`): the <t> descendants cannot fail *)
+  ignore (req A_REF c).
 
 Definition load_comments_skel (parts : list (Z * fstate)) (k : option Z) : outcome unit :=
   obind (open_part parts k) (fun ws =>
@@ -386,24 +387,25 @@ Definition sheet_rel_skel (parts : list (Z * fstate)) (rel : xml) : outcome unit
   let c := ty_class t in
   if c =? 1 then
     obind (req A_TARGET rel) (fun g =>
-    if replace_range_ok g then load_comments_skel parts (dotdot_part g) else Panic)
+    if replace_range_ok g then load_comments_skel parts (dotdot_part g) else Err)
   else if c =? 2 then
     obind (req A_ID rel) (fun _ => ignore (req A_TARGET rel))
   else if c =? 3 then
     obind (req A_TARGET rel) (fun g =>
     match abs_part g with
     | Some k => load_table_skel parts k
-    | None => if replace_range_ok g then load_table_skel parts (dotdot_part g) else Panic
+    | None => if replace_range_ok g then load_table_skel parts (dotdot_part g) else Err
     end)
   else Ok tt).
 
-(* the Target of a workbook relationship: `path.split("/worksheets/")` then `v[1]` *)
+(* the Target of a workbook relationship: `path.split("/worksheets/")` then `v.get(1).ok_or_else(..)?`
+   (repaired by dfbff56; was `v[1]`) *)
 Definition ws_part (v : aval) : option Z :=
   match v with VTarget cls part => if (cls =? 0) || (cls =? 1) then Some part else None | _ => None end.
 
 Definition load_sheet_rels_skel (p : pkg) (target : aval) : outcome unit :=
   match ws_part target with
-  | None => Panic
+  | None => Err
   | Some part =>
     match lookup part (p_srels p) with
     | None | Some Missing => Ok tt
@@ -529,6 +531,6 @@ Definition load_skel (p : pkg) : outcome unit :=
   obind (load_rels_skel (p_rels p)) (fun rels =>
   obind (load_styles_skel (p_styles p)) (fun _ =>
   obind (load_sheets_skel p rels (fst wb)) (fun _ =>
-  (* reparse_formula_hack: `worksheets[0]` for every defined name *)
+  (* reparse_formula_hack: `worksheets.first().ok_or_else(..)?` for every defined name (1babd25; was `worksheets[0]`) *)
   if (0 <? snd wb) && (match loaded_worksheets rels (fst wb) with [] => true | _ => false end)
-  then Panic else Ok tt))))).
+  then Err else Ok tt))))).
